@@ -99,8 +99,13 @@ def boundary_ulp(ctx, desc, obs, m):
     quantity sits on its limit to within 1e-9: table interpolation and child-current sums are not bit-reproducible"""
     if m["col"] != "warn":
         return False
+    amb = ctx.__dict__.setdefault("_ambiguous", set())
     row = [r for p in obs["phases"] if p["phase"] == m["phase"] for r in p["rows"] if r["name"] == m["row"]]
     if not row:
+        # a Subsystem / System total roll-up that differs only because a component row of this phase sits on a limit to the last bit
+        if (id(desc), m["phase"]) in amb and (m["row"].startswith("Subsystem ") or m["row"] == "System total"):
+            ctx.stats["boundary_last_bit_ambiguous_rollup"] += 1
+            return True
         return False
     c = [c for c in desc["comps"] if c["name"] == m["row"]][0]
     q = oracles.row_quantities(row[0])
@@ -114,6 +119,7 @@ def boundary_ulp(ctx, desc, obs, m):
         if min(abs(x - a), abs(x - b)) > 1e-9 * max(abs(x), 1e-30):
             return False
     ctx.stats["boundary_last_bit_ambiguous"] += 1
+    amb.add((id(desc), m["phase"]))
     return True
 
 
